@@ -14,6 +14,7 @@ RULE = (
     "hand-written flavour decomposition, closed-form b0,b1, no lnF terms for intrinsic kernels; at PTO 3 only keys with lnR>=1 or j=0 are "
     "decided; (switch) the same card with the four (RenScaleVar,FactScaleVar) settings: switched-off logs exactly zero, all other keys "
     "bit-identical. Distinct = (monitor, kind, process, scheme, PTO, nf); non-trivial = a non-zero SV tensor (or moment / memo entry) was compared."
+    " In the regrid mode the same card is served first on a twin grid, on the same nodes in the other interpolation mode and with another degree."
 )
 ASSUMPTIONS = ["ekore anomalous dimensions are trusted for (moments)", "the algebra oracle takes the matrices from the live memo (their content is judged by (memo) and (moments))"]
 
